@@ -244,6 +244,19 @@ func inlineWeight(defs map[string]string, name string, depth int) int {
 
 const maxInlineWeight = 12
 
+// reaches: does the definition of from (transitively) reference target?
+func reaches(defs map[string]string, from, target string, depth int) bool {
+	if depth > 12 {
+		return false
+	}
+	for _, r := range defRefs(defs[from]) {
+		if r == target || reaches(defs, r, target, depth+1) {
+			return true
+		}
+	}
+	return false
+}
+
 // admit keeps runs of other properties away from the inputs C11 is about
 // (dangling references and cycles created through updates), so that a C11
 // defect does not masquerade as a violation of the property under test,
@@ -271,6 +284,11 @@ func (o *oracles) admit(op Op) bool {
 			defs[t.Name] = t.Definition
 		}
 		defs[op.Name] = op.Def
+		if o.prop == "C09" && reaches(defs, op.Name, op.Name, 0) {
+			// would close a cycle: sent, and has to be rejected by the service
+			o.s.res.Count("probe_cyclic_definition_sent", 1)
+			return true
+		}
 		for n := range defs {
 			if inlineWeight(defs, n, 0) > maxInlineWeight {
 				return false
